@@ -407,13 +407,17 @@ def spow(b, e):
             if isinstance(e, float) and r.is_int:
                 r = SNum(_real(r.t))
             return r
-        if ef == Fraction(1, 2):
+        if ef == Fraction(1, 2) and (c is None or getattr(c, 'domain_checks', True)):
             if bool(SBool(b.t < 0)):
                 raise ComplexValue('negative base with fractional exponent gives a complex number')
             return ssqrt(b)
     # general case: uninterpreted POW with sign/range axioms
     bt = _real(toz3(b))
     et = _real(toz3(e))
+    if c is not None and not getattr(c, 'domain_checks', True):
+        # containment-only mode: the value is irrelevant (a final clip follows) and domain
+        # errors are the subject of the precise-mode configurations
+        return SNum(c.fresh('pw'))
     if isinstance(b, SNum):
         neg = SBool(bt < 0)
         if bool(neg):
